@@ -145,7 +145,8 @@ class Setup:
         name, fr = rng.choice(self.corpus)
         kind = rng.choice(["as-is", "bit-flip", "byte-flip", "truncate", "splice", "reorder", "before-greeting",
                            "undecodable-payload", "unknown-type", "bad-magic", "over-limit-length", "random-bytes",
-                           "huge-list-length", "multi-flip", "garbage-after-frame", "valid-content-before-greeting"])
+                           "huge-list-length", "multi-flip", "garbage-after-frame", "valid-content-before-greeting",
+                           "request-then-close", "request-then-reset"])
         greeted = kind not in ("before-greeting", "valid-content-before-greeting")
         if kind == "valid-content-before-greeting":
             # out of protocol order: perfectly valid NEW content, but sent before the greeting -> must change nothing
@@ -159,6 +160,14 @@ class Setup:
             parent = world.chain.blocks[head]
             rb = world.mine(world.draft(head, [], parent.ts + 5, world.keys[0][1]))
             return "valid-new-block", kind, sn.wire.block(bridge.rblock_to_real(rb)), False
+        if kind in ("request-then-close", "request-then-reset"):
+            # well-formed requests whose answers the node will try to SEND to a connection that is already gone
+            ms = self.sn.wire.ms
+            order = self.world.chain.order
+            fs = [self.sn.wire.frame(ms.GetDataMessage(ms.DATA_BLOCK, rng.choice(order))) for _ in range(rng.randint(1, 6))]
+            fs.append(self.sn.wire.frame(ms.GetBlocksMessage([order[0]])))
+            rng.shuffle(fs)
+            return "requests", kind, b"".join(fs), True
         if kind == "as-is" or kind == "before-greeting":
             data = fr
             if name.startswith("data-invalid"):
@@ -304,6 +313,17 @@ class Setup:
             frag = rng.random() < 0.5
             c["fragmented_streams"] += frag
             hostile.push(data)
+            if kind == "request-then-close":
+                hostile.close()
+                c["closed_before_answers_could_be_sent"] = c.get("closed_before_answers_could_be_sent", 0) + 1
+            elif kind == "request-then-reset":
+                # part of the requests is read, then the connection is reset under the node's hands
+                sn.net.next_recv_size = rng.choice([8, 40, 100])
+                acts = [a for a in sn.net.enabled() if a[0] == "read"]
+                if acts and rng.random() < 0.7:
+                    sn.net.run_action(acts[0])
+                sn.net.next_recv_size = 1024
+                hostile.reset()
             signal.alarm(12)
             try:
                 sn.settle(fragment=frag)
@@ -371,6 +391,8 @@ class Setup:
             if len(mon.samples) < 3:
                 mon.samples.append({"kind": kind, "base_frame": name, "bytes": len(data), "head": data[:24].hex(),
                                     "hostile_disconnected": hostile.peer.closed})
+        c["sends_failed_on_a_closed_connection"] = c.get("sends_failed_on_a_closed_connection", 0) + sn.net.send_faults
+        c["reads_failed_on_a_reset_connection"] = c.get("reads_failed_on_a_reset_connection", 0) + sn.net.recv_faults
         if getattr(self, "dead", False):
             return          # the node cannot make progress any more: nothing further can be asked of it
         # the interrupted download of honest peer #1 completes afterwards
@@ -655,6 +677,8 @@ def finalize(m, tier):
               ("frames_well_formed_but_invalid", c.get("frames_well_formed_but_invalid", 0), 200),
               ("streams_before_greeting", c.get("streams_before_greeting", 0), 300),
               ("noninterference_cases", c.get("noninterference_cases", 0), 200),
+              ("sends_failed_on_a_closed_connection", c.get("sends_failed_on_a_closed_connection", 0), 100),
+              ("reads_failed_on_a_reset_connection", c.get("reads_failed_on_a_reset_connection", 0), 100),
               ("noninterference_baseline_downloads_complete", c.get("noninterference_baseline_downloads_complete", 0), 100),
               ("hostile_gone_in_noninterference", c.get("hostile_gone_in_noninterference", 0), 150)]
     for k in ("bit-flip", "truncate", "splice", "reorder", "undecodable-payload", "unknown-type", "bad-magic", "over-limit-length",
